@@ -139,7 +139,8 @@ def _e2e_configs(tier):
         for existing in ('in_db_only', 'loaded', 'created_in_session'):
             for via in ('create', 'modify'):
                 if key == 'pk' and via == 'modify': continue
-                out.append(dict(key=key, existing=existing, via=via))
+                out.append(dict(key=key, existing=existing, via=via, caught=False))
+                if existing == 'in_db_only': out.append(dict(key=key, existing=existing, via=via, caught=True))
     return out
 
 
@@ -177,15 +178,20 @@ def _e2e_case(cfg, values):
                     U(id=3, name='n3', a=3, b=3)
                     conflict = dict(pk=dict(id=3, name='zz', a=9, b=9), unique=dict(id=7, name='n3', a=9, b=9), composite=dict(id=7, name='zz', a=3, b=3))[cfg['key']]
                 U[2].marker = 42                                    # a harmless write of the same session
+                if cfg['caught']: orm.flush()                       # ... already flushed successfully when the conflict is found
                 try:
                     if cfg['via'] == 'create': U(**conflict)
                     else:
                         o = U[2]
                         if cfg['key'] == 'unique': o.name = conflict['name']
                         else: o.a, o.b = conflict['a'], conflict['b']
+                    if cfg['caught']: orm.flush()
                 except (core.CacheIndexError,) as e:
                     st['raised_at'] = ('change', type(e).__name__)
                     raise
+                except (core.TransactionIntegrityError, core.IntegrityError) as e:
+                    # the application catches the flush-time conflict and lets the session end normally: nothing of the session may be committed
+                    st['raised_at'] = ('flush', type(e).__name__)
         except BaseException as e:
             if type(e).__name__ in ('Concretization', 'Unsupported'): raise
             if st['raised_at'] is None: st['raised_at'] = ('flush', type(e).__name__)
@@ -213,5 +219,5 @@ CONTRACTS = _pick(['simple_index', 'composite_index', '_get_from_identity_map_']
              allowed_exc=(core.TransactionIntegrityError, core.UnexpectedError), replay=False),
     Contract('conflict_scenarios', ['pony.orm.core:Entity.__init__', 'pony.orm.core:Attribute.__set__', 'pony.orm.core:SessionCache.flush', 'pony.orm.core:Database.generate_mapping'],
              _e2e_configs, _e2e_case, [('conflict_reported_no_duplicate_committed_database_unchanged', _e2e_spec)], level='bounded',
-             bound='one entity with int pk, unique str, composite (int, int); the conflicting row only in the database / loaded / created in the session; conflict by create or modify'),
+             bound='one entity with int pk, unique str, composite (int, int); the conflicting row only in the database / loaded / created in the session; conflict by create or modify; the flush-time error propagating or caught by the application after an earlier successful flush'),
 ]
